@@ -81,9 +81,15 @@ val filter : ('a1 -> bool) -> 'a1 list -> 'a1 list
 
 val combine : 'a1 list -> 'a2 list -> ('a1 * 'a2) list
 
+val firstn : nat -> 'a1 list -> 'a1 list
+
+val skipn : nat -> 'a1 list -> 'a1 list
+
 val nodup : ('a1 -> 'a1 -> bool) -> 'a1 list -> 'a1 list
 
 val seq : nat -> nat -> nat list
+
+val repeat : 'a1 -> nat -> 'a1 list
 
 type positive =
 | XI of positive
@@ -234,6 +240,8 @@ val appc : combf -> val0 list -> val0
 val val_ltb : val0 -> val0 -> bool
 
 val val_add : val0 -> val0 -> val0
+
+val seqZ : z -> nat -> z list
 
 type oid = nat
 
@@ -671,6 +679,89 @@ val init_world : scenario -> world
 
 val run_scenario : nat -> scenario -> req list * world
 
+type ending =
+| Completes
+| Fails of err
+| Silent
+
+type sout = val0 list * ending
+
+val events : sout -> ev list
+
+val parse_script : ev list -> sout option
+
+val takewhile : ('a1 -> bool) -> 'a1 list -> 'a1 list
+
+val dropwhile : ('a1 -> bool) -> 'a1 list -> 'a1 list
+
+val lastn : nat -> 'a1 list -> 'a1 list
+
+val dedup : val0 option -> val0 list -> val0 list
+
+val scanl : (val0 -> val0 -> val0) -> val0 option -> val0 list -> val0 list
+
+val fold1 : (val0 -> val0 -> val0) -> val0 list -> val0 option
+
+val chunks : nat -> nat -> val0 list -> val0 list list
+
+val when_complete : ending -> val0 list -> sout
+
+val opt_list : val0 option -> val0 list
+
+val min_f : val0 -> val0 -> val0
+
+val max_f : val0 -> val0 -> val0
+
+val demat : val0 list -> ending -> sout
+
+val keys_of : z -> z list -> val0 list -> z list
+
+val spec_op : opk -> sout -> sout
+
+val spec_children : opk -> sout -> sout list
+
+val in_c02 : opk -> bool
+
+val repeat_bound : nat
+
+val spec_pipe : (nat -> ev list list) -> pipe -> sout option
+
+val spec_pipe_children : (nat -> ev list list) -> pipe -> sout list
+
+val has_repeat : pipe -> bool
+
+type lst = { l_st : ostate; l_done : bool; l_up : bool }
+
+val lst0 : opk -> lst
+
+val l_set_st : lst -> ostate -> lst
+
+val l_end : lst -> lst
+
+val l_abort : lst -> lst
+
+val loc_act : act -> lst -> lst * ev list
+
+val loc_acts : act list -> lst -> lst * ev list
+
+val loc_step : opk -> lst -> ev -> lst * ev list
+
+val loc_feed : opk -> lst -> ev list -> lst * ev list
+
+val loc_run : opk -> ev list -> ev list
+
+val expand : opk -> opk list
+
+val prefix_of : opk -> ev list
+
+val loc_op : opk -> ev list -> ev list
+
+val loc_chain : opk list -> ev list -> ev list
+
+val loc_node_op : opk -> bool
+
+val loc_derived_op : opk -> bool
+
 type observation = { ob_out : nat; ob_log : ((nat * nat) * ev) list;
                      ob_tap : (nat * ev) list;
                      ob_probes : (((nat * nat) * nat) * bool) list;
@@ -685,3 +776,25 @@ val users : ((nat * nat) * ev) list -> nat list
 val contract_ok : ev list -> bool
 
 val c01_oracle : observation -> bool
+
+val val_sim : val0 -> val0 -> bool
+
+val ev_sim : ev -> ev -> bool
+
+val evs_sim : ev list -> ev list -> bool
+
+val scripts_of : scenario -> nat -> ev list list
+
+val is_windowing : opk -> bool
+
+val inner_windowing : pipe -> bool
+
+val c02_oracle : scenario -> observation -> bool option
+
+val chain_of : pipe -> (pipe * opk list) option
+
+val loc_supported : opk -> bool
+
+val source_events : scenario -> pipe -> ev list option
+
+val c02_loc_oracle : scenario -> observation -> bool option
